@@ -177,3 +177,42 @@ package transport
 //@   at call! Command#1 assert #the-ssh-process-gets-the-computed-argv arg0 == t.OpenBin && (len(old(t.OpenArgs)) == 0 ==> arg1 === sysArgv(t, a)) && (len(old(t.OpenArgs)) != 0 ==> arg1 === old(t.OpenArgs))
 //@ func (*System).openNetconf [C14]
 //@   at call! Command#1 assert #the-ssh-process-gets-the-computed-argv-and-the-netconf-subsystem arg0 == t.OpenBin && (len(old(t.OpenArgs)) == 0 ==> arg1 === sysArgv(t, a) ++ strs("-s", "netconf")) && (len(old(t.OpenArgs)) != 0 ==> arg1 === old(t.OpenArgs) ++ strs("-s", "netconf"))
+
+// ---- C19: the transport constructors -------------------------------------------------------------------------------------------
+//@ func NewArgs [C19]
+//@   modifies alloc(), optlog
+//@   ensures #fresh result.1 == nil ==> fresh(result.0)
+//@   ensures #nil-on-error result.1 != nil ==> result.0 == nil
+//@   ensures #error-is-not-ignored-sentinel result.1 != nil ==> !isErr(result.1, util.ErrIgnoredOption)
+//@   ensures #every-option-applied-in-order result.1 == nil ==> optlog == old(optlog) ++ applied(options, box("*transport.Args", result.0), len(options))
+//@   ensures #defaults result.1 == nil && len(options) == 0 ==> result.0.Host == host && result.0.Port == 22 && result.0.TimeoutSocket == 30 * 1000000000 && result.0.ReadSize == 8192 && result.0.TermHeight == 255 && result.0.TermWidth == 80 && result.0.l == l
+//@   loop 1 invariant -1 <= rangeindex && rangeindex < len(options) && isnew(a) && a != nil
+//@   loop 1 invariant optlog == old(optlog) ++ applied(options, box("*transport.Args", a), rangeindex + 1)
+//@   loop 1 invariant rangeindex == -1 ==> a.Host == host && a.Port == 22 && a.TimeoutSocket == 30 * 1000000000 && a.ReadSize == 8192 && a.TermHeight == 255 && a.TermWidth == 80 && a.l == l
+//@ func NewTelnetArgs [C19]
+//@   modifies alloc(), optlog
+//@   ensures #fresh result.1 == nil ==> fresh(result.0)
+//@   ensures #nil-on-error result.1 != nil ==> result.0 == nil
+//@   ensures #every-option-applied-in-order result.1 == nil ==> optlog == old(optlog) ++ applied(options, box("*transport.TelnetArgs", result.0), len(options))
+//@   loop 1 invariant -1 <= rangeindex && rangeindex < len(options) && isnew(a) && a != nil
+//@   loop 1 invariant optlog == old(optlog) ++ applied(options, box("*transport.TelnetArgs", a), rangeindex + 1)
+// optT: ghost - the option log when NewTransport starts applying the options to the implementation
+//@ ghost optT []int
+//@ func NewTransport [C19]
+//@   at call! NewArgs#1 assert #the-common-arguments-get-the-logger-the-host-and-all-options arg0 == l && arg1 == host && arg2 === options
+//@   at call NewSSHArgs#1 assert #ssh-arguments-only-for-the-ssh-transports (transportType == "system" || transportType == "standard") && arg0 === options
+//@   at call NewTelnetArgs#1 assert #telnet-arguments-only-for-telnet transportType == "telnet" && arg0 === options
+//@   at call NewSystemTransport#1 assert #system-means-the-system-transport transportType == "system" && arg0 == sshArgs
+//@   at call NewStandardTransport#1 assert #standard-means-the-standard-transport transportType == "standard" && arg0 == sshArgs
+//@   at call NewTelnetTransport#1 assert #telnet-means-the-telnet-transport transportType == "telnet" && arg0 == telnetArgs
+//@   at call NewFileTransport#1 assert #file-means-the-file-transport transportType == "file"
+//@   after call NewArgs#1 set optT = optlog
+//@   after call NewSystemTransport#1 set optT = optlog
+//@   after call NewStandardTransport#1 set optT = optlog
+//@   after call NewTelnetTransport#1 set optT = optlog
+//@   after call NewFileTransport#1 set optT = optlog
+//@   loop 1 invariant -1 <= rangeindex && rangeindex < len(options)
+//@   loop 1 invariant #every-option-applied-in-order-to-the-implementation optlog == optT ++ applied(options, i, rangeindex + 1)
+//@   at return assert #the-transport-holds-the-arguments-and-the-implementation result.1 == nil ==> result.0 == t && t.Args == args && t.Impl == i
+//@   at return assert #all-options-were-applied-to-the-implementation result.1 == nil ==> optlog == optT ++ applied(options, i, len(options))
+//@   ensures #nil-on-error result.1 != nil ==> result.0 == nil
